@@ -252,9 +252,31 @@ func VerifC22Enqueue() {
 		return &storage.PutObjectResult{}, nil
 	}
 
+	// bulk delete: which of the two entries the inner storage really deleted
+	bulkDeleted := [2]bool{}
+	bulkKeys := [2]string{keyStr, "zz"}
+	inner.fnDeleteObjects = func(ctx contextT, b storage.BucketName, entries []storage.DeleteObjectsInputEntry) (*storage.DeleteObjectsResult, error) {
+		seeTx(ctx)
+		if inner.err != nil {
+			return nil, inner.err
+		}
+		res := &storage.DeleteObjectsResult{}
+		for i, e := range entries {
+			res.Entries = append(res.Entries, storage.DeleteObjectsEntry{Key: e.Key, Deleted: bulkDeleted[i]})
+		}
+		return res, nil
+	}
+
 	var err error
 	event := ""
-	switch verifPick("op", 0, 3) {
+	bulk := false
+	switch verifPick("op", 0, 4) {
+	case 4:
+		bulk = true
+		event = EventObjectRemovedDelete
+		bulkDeleted = [2]bool{verifBool("first-deleted"), verifBool("second-deleted")}
+		_, err = m.DeleteObjects(verifBg, bucket, []storage.DeleteObjectsInputEntry{{Key: key}, {Key: storage.MustNewObjectKey("zz")}})
+		verifCover("bulk-delete")
 	case 0:
 		event = EventObjectCreatedPut
 		_, err = m.PutObject(verifBg, bucket, key, nil, bytes.NewReader([]byte("x")), nil, nil)
@@ -273,13 +295,30 @@ func VerifC22Enqueue() {
 		err = m.PutObjectTagging(verifBg, bucket, key, map[string]string{"t": "1"}, nil)
 	}
 	want := 0
-	for _, r := range rules {
-		if verifRefMatches(r.pattern, r.prefix, r.suffix, event, keyStr) {
+	if bulk {
+		// one event per entry that was really deleted
+		for i, k := range bulkKeys {
+			if !bulkDeleted[i] {
+				continue
+			}
+			for _, r := range rules {
+				if verifRefMatches(r.pattern, r.prefix, r.suffix, event, k) {
+					want++
+				}
+			}
+			if config.EventBridgeEnabled {
+				want++
+			}
+		}
+	} else {
+		for _, r := range rules {
+			if verifRefMatches(r.pattern, r.prefix, r.suffix, event, keyStr) {
+				want++
+			}
+		}
+		if config.EventBridgeEnabled {
 			want++
 		}
-	}
-	if config.EventBridgeEnabled {
-		want++
 	}
 	total, _, _ := m.verifCount()
 	saveFails := repo.failSaveAt >= 0 && repo.failSaveAt < want
